@@ -198,14 +198,55 @@ def contract(file, qualname, props=(), name=None):
     return deco
 
 
+class LemmaCtx:
+    """Looks like a FnCtx to the discharge / evidence code."""
+    is_lemma = True
+
+    def __init__(self, name):
+        from .state import Obl
+        self.fn = "lemma:" + name
+        self.obls, self.axioms = [], []
+        self.ex = None
+        self.nreturns = 1
+        self.trusted, self.inlined, self.used_contracts, self.used_lemmas = [], set(), set(), set()
+        self._Obl = Obl
+
+    def vc(self, label, hyps, goal):
+        o = self._Obl(self.fn, label, "lemma", hyps, goal)
+        self.obls.append(o)
+        return o
+
+
 class Lemma:
-    """A named VC over spec functions only: hypotheses |- goal, with optional induction."""
-    def __init__(self, name, setup, props=()):
-        self.name, self.setup, self.props = name, setup, tuple(props)
+    """A named fact over spec functions.  `prove(lx)` adds the VCs that establish it (base and
+    step of an induction, written out by the author); `statement(*args)` is the formula a ghost
+    `__lemma__(name, args...)` may assume once those VCs are discharged."""
+    def __init__(self, name, props=()):
+        self.name, self.props = name, tuple(props)
+        self.prove = None
+        self.statement = None
+        self.axioms = lambda: []
+
+    def build(self):
+        lx = LemmaCtx(self.name)
+        lx.axioms = list(self.axioms())
+        self.prove(lx)
+        return lx
+
+    def instance(self, cx, *args):
+        for a in self.axioms():
+            if not any(a.eq(b) for b in cx.axioms):
+                cx.axioms.append(a)
+        import inspect
+        if 'cx' in inspect.signature(self.statement).parameters:
+            return self.statement(*args, cx=cx)
+        return self.statement(*args)
 
 
 def lemma(name, props=()):
     def deco(f):
-        LEMMAS[name] = Lemma(name, f, props)
-        return LEMMAS[name]
+        lem = Lemma(name, props)
+        f(lem)
+        LEMMAS[name] = lem
+        return lem
     return deco
